@@ -115,7 +115,7 @@ Example C09_save_nonvacuous :
              f' (Content 1%nat) = Some [1] /\ f' (Content 2%nat) = Some [1] /\ length ops = 27%nat.
 Proof. exact demo_crash_between_renames. Qed.
 
-(* --- rejection, for every loader of the shape LoaderModel.loader (CONDITIONAL, see the header) ------------ *)
+(* --- rejection, for every loader of the shape LoaderModel.loader (GENERIC, see the header) ---------------- *)
 
 Theorem C09_accept_sealed : forall St header record,
   regular header -> (forall c st, regular (record c st)) ->
